@@ -199,6 +199,9 @@ impl ParentCell {
     #[verifier::external_body] pub fn lock(&self) -> (r: core::result::Result<&ParentCell, PoisonError>) ensures r is Ok && r->Ok_0.id() == self.id() { unimplemented!() }
     #[verifier::external_body] pub fn upgrade(&self, Tracked(vxv): Tracked<&mut LView>) -> (r: Option<Node>)
         ensures *final(vxv) == *old(vxv), r == old(vxv).par[self.id()] { unimplemented!() }
+    // *cell.lock().unwrap() = weak: the cell holds that link afterwards
+    #[verifier::external_body] pub fn set_parent(&self, w: WeakNode, Tracked(vxv): Tracked<&mut LView>)
+        ensures *final(vxv) == (LView { par: old(vxv).par.insert(self.id(), Some(w.target())), ..*old(vxv) }) { unimplemented!() }
     // Mutex::new(weak): a NEW cell
     #[verifier::external_body] pub fn new(w: WeakNode, Tracked(vxv): Tracked<&mut LView>) -> (r: ParentCell)
         ensures !old(vxv).par.contains_key(r.id()), *final(vxv) == (LView { par: old(vxv).par.insert(r.id(), Some(w.target())), ..*old(vxv) }) { unimplemented!() }
@@ -764,8 +767,8 @@ def unit(root='/repo'):
     child = tok(Fn(OVL, OI, 'child', props=P, splices=[BCAST],
                    ensures=['%s == %s // [C10.view.child.frame]' % (H1, H0),
                             'r == (if %s.contains_key(name@) { Some(%s[name@]) } else { None::<Node> }) // [C10.view.child.exact] the entry of THIS node\'s table under exactly that name' % (KID, KID)]), ['get'])
-    insc = tok(Fn(OVL, OI, 'insert_child', props=P, body_resub=[TO_STRING],
-                  ensures=['%s == (LView { kids: old(vxv).kids.insert(self.childrens.id(), %s.insert(name@, node)), ..%s }) // [C10.view.insert_child.exact] one entry of one table, nothing else' % (H1, KID, H0)]), ['insert'])
+    insc = tok(Fn(OVL, OI, 'insert_child', props=P, body_resub=[TO_STRING, (r'\*node\.parent\.lock\(\)\.unwrap\(\) = Arc::downgrade\(self\);', 'node.parent.set_parent(arc_downgrade(self), Tracked(vxv));', 'assignment through the lock of the parent cell -> model call set_parent (the cell holds the weak link to self afterwards)')],
+                  ensures=['%s == (LView { kids: old(vxv).kids.insert(self.childrens.id(), %s.insert(name@, node)), par: old(vxv).par.insert(node.parent.id(), Some(*self)), ..%s }) // [C10.view.insert_child.exact] one entry of one table and the parent link of the entered node (".." of a node is the directory it was entered into), nothing else' % (H1, KID, H0)]), ['insert', 'set_parent'])
     remc = tok(Fn(OVL, OI, 'remove_child', props=P,
                   ensures=['%s == (LView { kids: old(vxv).kids.insert(self.childrens.id(), %s.remove(name@)), ..%s }) // [C10.view.remove_child.exact] one entry of one table, nothing else' % (H1, KID, H0)]), ['remove'])
     items.append(Group('impl OverlayInode {', [child, insc, remc]))
